@@ -241,6 +241,17 @@ def run(facts, R):
         if any(f["val"] == "Err" and is_call(f["expr"], "rename") for f in fs):
             w = must_cross(cm, [(0, 0)], [(i, j)], rm2, after_start=False)
             R.check(rm2 and w is None, "tempfile-raii", cm.path, "rename-failure removes temp", "a failed rename leaves the temp file behind", s.get("span"), path=w)
+    # the destination is touched by nothing but the rename: commit may delete only its own temp path, so that a failed
+    # publish leaves whatever was at the destination before (the rename is the one atomic step)
+    for i, t in cm.calls():
+        nm = t["callee"]["path"]
+        if callee_matches(t["callee"], "std::fs::remove_file", "std::fs::remove_dir", "std::fs::remove_dir_all", "std::fs::write", "std::fs::copy",
+                          "std::fs::File::create", "std::fs::OpenOptions::open", "std::fs::hard_link") and t["args"]:
+            a = csym.op(t["args"][-1] if callee_matches(t["callee"], "std::fs::copy", "std::fs::hard_link") else t["args"][0])
+            own = any(x[0] == "field" and x[2] == "path" and x[1][0] == "arg" and x[1][1] == 1 for x in walk(a)) and not any(x[0] == "arg" and x[1] == 2 for x in walk(a))
+            R.check(own, "tempfile-raii", cm.path, "commit touches the destination only through rename",
+                    "commit calls %s(%s): the destination is modified outside the atomic rename, so a publish that fails afterwards has already destroyed the previous file"
+                    % (nm.rsplit("::", 1)[-1], render(a)[:80]), t.get("span"), "%s(self.path)" % nm.rsplit("::", 1)[-1])
     closes = [(w["bb"], w["idx"]) for w in field_writes(facts, TF, "file") if w["body"] is cm and w["kind"] == "store"
               and csym.rvalue(w["rv"])[0] == "agg" and csym.rvalue(w["rv"])[2] == "None"]
     ren = [term_pt(cm, i) for i, t in cm.calls() if callee_matches(t["callee"], "std::fs::rename")]
